@@ -98,7 +98,8 @@ def program(g, ci):
         elif u < 0.44:
             ch = r.choice(chans)
             step = [r.choice([{"op": "sq.setAmp", "id": x, "ch": ch, "v": enc(r.choice([1e6, 2e6]))},
-                              {"op": "sq.setOff", "id": x, "ch": ch, "v": enc(r.choice([0, 0.25, -0.5]))}])]
+                              {"op": "sq.setOff", "id": x, "ch": ch, "v": enc(r.choice([0, 0.25, -0.5]))},
+                              {"op": "sq.setRange", "id": x, "ch": ch, "ampl": enc(r.choice([1e6, 3e6])), "offset": enc(r.choice([0, 0.125]))}])]
         elif u < 0.52:
             # (now and then for a channel the sequence does not have: stored, moves nothing)
             step = [{"op": "sq.setDelay", "id": x, "ch": r.choice(list(chans) * 4 + [9]), "v": enc(r.choice(dpool) / SR)}]
@@ -140,7 +141,7 @@ def program(g, ci):
                 ops += [{"op": "sq.json", "id": x, "to": new, "_errclass": False}] + observe([new])
                 names.append(new)
             rd = [{"op": "sq.channels", "id": x}, {"op": "sq.points", "id": x}, {"op": "sq.duration", "id": x}, {"op": "sq.check", "id": x},
-                  {"op": "sq.check", "id": x, "verbose": True},
+                  {"op": "sq.check", "id": x, "verbose": True}, {"op": "sq.len", "id": x},
                   {"op": "sq.SR", "id": x},
                   {"op": "sq.forge", "id": x, "delays": r.random() < 0.5, "filters": r.random() < 0.5, "time": r.random() < 0.5}]
             if not with_subs:
